@@ -103,7 +103,7 @@ def run(tier, rng, C):
                                 nontrivial=lambda l, o: len(o) > 6)
         v += vv
         stats = st if stats is None else C.merge_stats(stats, st)
-    for k in (200, 1000):
+    for k in (200, 1000, 256, 256 + 16, 65536 + 16):
         vv, st = C.differential("C12", [("CSRF %d" % k, "csrf-long")], monitor=lambda l, o: "CSRFM " + l[5:] + " | " + o,
                                 canon=lambda l, o: o.split(" ")[0], shrinkable=False)
         v += vv
